@@ -8,9 +8,11 @@ import (
 	"github.com/glebziz/fs_db/internal/model"
 	"github.com/glebziz/fs_db/internal/model/core"
 	"github.com/glebziz/fs_db/internal/model/sequence"
+	"github.com/glebziz/fs_db/internal/verifhook"
 )
 
 func (u *UseCase) UpdateTx(ctx context.Context, oldTxId, newTxId string, filter model.FileFilter) (deleteFiles []model.File, err error) { //nolint:funlen,cyclop,lll // TODO fix
+	verifhook.At("utx.enter")
 	tx := u.txStore.Delete(oldTxId)
 	if tx == nil {
 		return nil, nil
@@ -28,12 +30,14 @@ func (u *UseCase) UpdateTx(ctx context.Context, oldTxId, newTxId string, filter 
 		u.txStore.Put(newTxId, newTx)
 	}
 
+	verifhook.At("utx.p1")
 	newTx.RLock()
 	var (
 		files     = make([]model.File, 0, tx.Len())
 		freeNodes = make([]*core.Node[model.File], 0, tx.Len())
 	)
 	defer func() {
+		verifhook.At("utx.unlink")
 		for _, n := range freeNodes {
 			link := n.DeleteLink()
 			u.nodePool.Release(link, n)
@@ -64,6 +68,7 @@ func (u *UseCase) UpdateTx(ctx context.Context, oldTxId, newTxId string, filter 
 		}
 	}
 	newTx.RUnlock()
+	verifhook.At("utx.between")
 	if err != nil {
 		return
 	}
